@@ -16,15 +16,15 @@ import (
 const tokenLSS = token.LSS
 
 type SpecEnv struct {
-	fx      *fnExec
-	cur     *State
-	old     *State
-	names   map[string]SV
-	bound   map[string]SV
-	callee  bool // evaluating a callee's contract: no access to the caller's cells
-	depth   int
-	loopPre *State
-	pkg     *ssa.Package // callee contracts: the callee's package, for its package-level variables
+	fx       *fnExec
+	cur      *State
+	old      *State
+	names    map[string]SV
+	bound    map[string]SV
+	callee   bool // evaluating a callee's contract: no access to the caller's cells
+	depth    int
+	loopPre  *State
+	pkg      *ssa.Package    // callee contracts: the callee's package, for its package-level variables
 	ptrNames map[string]bool // names bound to an address (Ad) that stand for a pointer value, not for the content
 }
 
@@ -182,6 +182,10 @@ func (fx *fnExec) lookupCell(name string) (ssa.Value, bool) {
 	}
 	if ord > 0 {
 		if ord > len(cs) {
+			if len(cs) == 1 {
+				// x@2 when x is declared once now (a shadowing declaration turned into an assignment): that one
+				return cs[0], true
+			}
 			return nil, false
 		}
 		return cs[ord-1], true
@@ -1332,11 +1336,15 @@ func (fx *fnExec) runStoreHooks(x *ssa.Store, ad Ad, where string) {
 		return
 	}
 	target := ""
+	if _, isLocal := ad.Cell.(*ssa.Alloc); isLocal && fx.inlining > 0 {
+		// the locals of a helper executed in place are not the locals the contract names
+		return
+	}
 	if ad.Cell != nil {
 		if a, ok := ad.Cell.(*ssa.Alloc); ok {
-			target = a.Comment
+			target = fx.v.contractName(fx.fn, a.Comment)
 		} else {
-			target = ad.Cell.Name()
+			target = fx.v.contractName(fx.fn, ad.Cell.Name())
 		}
 		if len(ad.Path) > 0 {
 			target += pathSuffix(ad.Path)
@@ -1521,6 +1529,10 @@ func (fx *fnExec) matchCallSite(target, name string) bool {
 		return false
 	}
 	k, _ := strconv.Atoi(m[2])
+	if fx.inlining > 0 {
+		// call sites inside a helper executed in place have no ordinal in the function under contract
+		return false
+	}
 	return fx.curCall != nil && fx.callOrdinal(fx.curCall, name) == k
 }
 
@@ -1575,9 +1587,9 @@ func (fx *fnExec) storeTarget(x *ssa.Store) string {
 			// an escaping variable lives in the heap of its type (the same name runStoreHooks gives the store)
 			return "F." + typeKey(r.Type().Underlying().(*types.Pointer).Elem()) + suffix
 		}
-		return r.Comment + suffix
+		return fx.v.contractName(fx.fn, r.Comment) + suffix
 	case *ssa.FreeVar:
-		return r.Name() + suffix
+		return fx.v.contractName(fx.fn, r.Name()) + suffix
 	case *ssa.Global:
 		return r.Name() + suffix
 	}
